@@ -577,7 +577,8 @@ End MakeContractions.
 
 (* wrappers.py:303-319: from_pyscf, data flow only.  mol._atom = [(symbol, coord)], mol._basis =
    symbol -> [[l, [exp, c1, .., cM], ...], ...] (rows), mol.cart.  Result: per atom in order, per shell
-   in order, (l, coord, exps, coefficient columns, type); no icenter is set by the code. *)
+   in order, (l, coord, exps, coefficient ROWS (K x M, as np.vstack gives them), type); no icenter is set
+   by the code. *)
 Section FromPyscf.
   Context {C N : Type}.
   Definition pyscf_shell : Type := nat * list (N * list N).      (* l, rows (exp, coefficients) *)
